@@ -14,7 +14,7 @@ import random
 import shutil
 from collections import Counter
 
-from vlib import core, query
+from vlib import core, query, storage
 from checks import c02
 
 PROP = "C10"
@@ -193,8 +193,12 @@ def stage_t(chk, tier, bindir, rnd, stats):
             # large zones and deep pages without filters: the top-k zone pre-selection has to keep every
             # zone that can contribute to rows m..m+n
             ({"x": "int2", "y": "string2", "w": "int"}, 480, 8, 3, "deep-l0"), ({"x": "int", "y": "string", "w": "int"}, 640, 16, 2, "deep-mixed")]
+    # lopsided: the flushed bulk lives on ONE shard, the newest events are in memory on the OTHER shards (the zone planner of
+    # ORDER BY .. LIMIT sees zones on one shard only; the fan-out must still reach the shards that hold rows in memory only)
+    runs.append(({"x": "int", "y": "string", "w": "int"}, 120, 4, 3, "lopsided-l0mem"))
     if not q:
         runs += [({"x": "int2", "y": "string2", "w": "int"}, 400, 3, 8, lay) for lay in ("mixed", "l0x3", "restart")]
+    routes = storage.probe_routing(bindir, 3)
     trace = core.WORK / "c10" / "trace.ndjson"
     trace.parent.mkdir(parents=True, exist_ok=True)
     recs, meta = [], {}
@@ -203,8 +207,22 @@ def stage_t(chk, tier, bindir, rnd, stats):
         ctxs = [f"c{i}" for i in range(1, 7)]
         data = [{"k": k, "c": rnd.choice(ctxs), "ts": 10,
                  "f": {"x": rnd.choice([0, 1, 2, 3, 4]), "y": rnd.choice([0, 1, 2, 3, 4]), "w": rnd.choice([1, 2, 3])}} for k in range(1, n + 1)]
+        lopsided = layout.startswith("lopsided")
+        if lopsided:
+            layout = layout[len("lopsided-"):]
+            home = max(routes, key=lambda sh: len(routes[sh]))
+            others = [c for sh in routes if sh != home for c in routes[sh]]
+            cut = (n * 85) // 100
+            for e in data:
+                e["c"] = rnd.choice(routes[home][:3]) if e["k"] <= cut else others[e["k"] % len(others)]
+                if e["k"] > cut:
+                    e["f"]["x"] = rnd.choice([0, 4])          # the in-memory rows belong at both ends of the order
         recs.append({"data": data})
         reqs = []
+        if lopsided:
+            for _ in range(40 if q else 150):
+                reqs.append({"kind": "ordered", "f": rnd.choice(["x", "y"]), "desc": rnd.random() < 0.5, "off": rnd.choice([0, 0, 1, 3]),
+                             "lim": rnd.choice([1, 2, 3, 5]), "where": {"tag": "true"}, "ctx": rnd.choice(["*", "*"] + others[:2])})
         deep = layout.startswith("deep")
         if deep:
             layout = layout[len("deep-"):]
@@ -213,7 +231,7 @@ def stage_t(chk, tier, bindir, rnd, stats):
                 off = rnd.choice([0, 7, 20, 40, 41, 64, 100, 200])
                 reqs.append({"kind": "ordered", "f": rnd.choice(["x", "y"]), "desc": rnd.random() < 0.5, "off": off, "lim": lim,
                              "where": {"tag": "true"}, "ctx": "*"})
-        for _ in range(0 if deep else (60 if q else 200)):
+        for _ in range(0 if (deep or lopsided) else (60 if q else 200)):
             where = rnd.choice([{"tag": "true"}, {"tag": "cmp", "f": "w", "op": rnd.choice(["<", ">=", "="]), "v": rnd.choice([1, 2, 3])}])
             if rnd.random() < 0.8:
                 lim = rnd.choice([-1, 0, 1, 2, 5, 17, 50, n, n + 5])
